@@ -45,10 +45,49 @@ def _child_owner(fn, arg):
     return None
 
 
+def declaring_helpers(tu):
+    """{function: parameter index} - helpers that declare their (already
+    activated) parameter as read on every path to a non-error return: the search
+    step of a write factored out together with its readCurrent"""
+    from ..cir import const_int
+    out = {}
+    entries = pins.entry_points(tu)
+    for name in tu.order:
+        fn = tu.funcs[name]
+        if name in entries or tu.body(name) is None:
+            continue
+        rcs = [n for n in fn.walk() if n.k == "CallExpr" and callee(n) == ("capi", "readCurrent")]
+        if not rcs:
+            continue
+        params = [k.n for k in fn.kids if k.k == "ParmVarDecl"]
+        cfg = CFG(fn)
+        dom = cfg.dominators()
+        for i, pn in enumerate(params):
+            nodes = [nd for nd in cfg.live_nodes() if nd.e is not None and any(
+                x.k == "CallExpr" and callee(x) == ("capi", "readCurrent") and path(x.kids[1]) == pn
+                for x in nd.e.walk())]
+            if not nodes:
+                continue
+            if any(nd.unit and nd.unit[0] == "ACQ" and path(nd.unit[1]) == pn for nd in cfg.live_nodes()):
+                continue          # activates the node itself: an ordinary function, judged on its own
+            ok = True
+            for r in cfg.returns():
+                if r.e is not None:
+                    c = const_int(r.e)
+                    if c is not None and c <= 0:
+                        continue                  # NULL / -1 / 0: the failure answers
+                if not any(nd.id in dom[r.id] for nd in nodes):
+                    ok = False
+            if ok:
+                out[name] = i
+    return out
+
+
 def analyse_tu(tu):
     findings = []
     stats = {"readcur_sites": 0, "descents": 0, "readers": 0, "writers": 0}
     g = callgraph.build(tu)
+    helpers = declaring_helpers(tu)
     # ---- MUST ---------------------------------------------------------------
     for name in tu.order:
         fn = tu.funcs[name]
@@ -74,12 +113,19 @@ def analyse_tu(tu):
                 if x.k == "CallExpr" and callee(x) == ("capi", "readCurrent"):
                     rc_nodes.append((nd, path(x.kids[1])))
                     stats["readcur_sites"] += 1
+                elif x.k == "CallExpr" and callee(x)[0] == "fn" and callee(x)[1] in helpers and \
+                        callee(x)[1] != name and len(x.kids) > 1 + helpers[callee(x)[1]]:
+                    # a helper that declares the node it is handed
+                    rc_nodes.append((nd, path(x.kids[1 + helpers[callee(x)[1]]])))
         # the declaration is made on the *activated* node: readCurrent of a
         # ghost declares nothing (cPersistence's readCurrent looks at the
         # object's serial, which a ghost does not have yet)
         acq = [(nd, path(nd.unit[1])) for nd in cfg.live_nodes() if nd.unit and nd.unit[0] == "ACQ"]
+        own_params = [k.n for k in fn.kids if k.k == "ParmVarDecl"]
         for r, rp in rc_nodes:
             stats["readcur_active"] = stats.get("readcur_active", 0) + 1
+            if name in helpers and rp == own_params[helpers[name]]:
+                continue      # the caller hands the node over activated (checked at the call site)
             if not any(a.id in dom[r.id] and a.id != r.id and ap == rp for a, ap in acq):
                 findings.append(dict(
                     rule="READCUR-MUST", function=name, file=r.e.f, line=r.e.l,
